@@ -290,3 +290,210 @@ Proof.
       intros m; destruct (Hsl m) as (a0 & b0 & c0 & _); rewrite ?node_set_cbs; try congruence.
     rewrite c0. auto.
 Qed.
+
+(* ------------------------------------------------------------------ the link invariant *)
+Definition setup_ev (n : nat) (e : tev) : bool := match e with TSetup m => m =? n | _ => false end.
+Definition cnt_setup (n : nat) (p : list tev) : nat := length (filter (setup_ev n) p).
+Definition is_wproc := ExecCount.is_wproc.
+
+Record inv_link (nt : net) (s : state) : Prop := {
+  (* (a) every node of the table was set up exactly once, nothing else was, the source was started *)
+  k_setup : forall n, n < length nt -> is_setup n (tr s) = true /\ cnt_setup n (tr s) = 1;
+  k_setup_range : forall m, length nt <= m -> is_setup m (tr s) = false;
+  k_start : any_start (tr s) = true;
+  (* (b) Shutdown has begun <-> the once has been entered *)
+  k_shutb : forall n, shutb n (tr s) = negb (match once (node s n) with ONone => true | _ => false end);
+  (* (c) Shutdown has returned <-> the once is done, or running with its worker about to close the children *)
+  k_shute : forall n, shute n (tr s) = match once (node s n) with
+                                      | ODone => true
+                                      | ORunning => existsb isclosing (ws (node s n))
+                                      | ONone => false
+                                      end;
+  (* (d) *)
+  k_done : is_done (tr s) = match mn s with MDone => true | _ => false end;
+  (* (e), (f) *)
+  k_nil : any_nil_end (tr s) = match src s with SClosed => true | _ => false end;
+  k_run : src_running (tr s) = match src s with SRunning _ => true | _ => false end;
+  (* (g) *)
+  k_calls : forall n, n < length nt -> open_calls n (tr s) = length (filter is_wproc (ws (node s n)));
+  (* (h) main closes the roots only after it has seen the source channel closed *)
+  k_root : forall r, In r (roots nt) -> closed (node s r) = true -> src s = SClosed;
+  (* a closed channel is a root's or has a feeder *)
+  k_fed : forall c, closed (node s c) = true ->
+            In c (roots nt) \/ exists m, m < length nt /\ In c (targets (info nt m));
+  k_main : match mn s with MCloseRoots | MWait | MDone => src s = SClosed | _ => True end
+}.
+
+(* the part proved by induction over the schedule; the rest follows from it, [inv_life'], p1's
+   [inv_count] and ExecMain's [src_history] *)
+Record link_core (nt : net) (s : state) : Prop := {
+  c_setup : forall n, n < length nt -> is_setup n (tr s) = true /\ cnt_setup n (tr s) = 1;
+  c_setup_range : forall m, length nt <= m -> is_setup m (tr s) = false;
+  c_start : any_start (tr s) = true;
+  c_shutb : forall n, shutb n (tr s) = negb (match once (node s n) with ONone => true | _ => false end);
+  c_shute : forall n, shute n (tr s) = match once (node s n) with
+                                      | ODone => true
+                                      | ORunning => existsb isclosing (ws (node s n))
+                                      | ONone => false
+                                      end;
+  c_done : is_done (tr s) = match mn s with MDone => true | _ => false end;
+  c_fed : forall c, closed (node s c) = true ->
+            In c (roots nt) \/ exists m, m < length nt /\ In c (targets (info nt m));
+  c_main : match mn s with MCloseRoots | MWait | MDone => src s = SClosed | _ => True end
+}.
+
+Lemma has_app : forall P a b, has P (a ++ b) = has P a || has P b.
+Proof. intros. unfold has. apply existsb_app. Qed.
+
+(* case analysis over the events of an action *)
+Ltac evs_cases s :=
+  cbn [evs];
+  repeat match goal with
+  | |- context [match src s with _ => _ end] => destruct (src s)
+  | |- context [match q (node s ?n) with _ => _ end] => destruct (q (node s n))
+  | |- context [match nth_error (ws (node s ?n)) ?w with _ => _ end] =>
+      destruct (nth_error (ws (node s n)) w) as [[]|]
+  end.
+
+Lemma evs_no_setup : forall nt s a n, filter (setup_ev n) (evs nt s a) = [] /\ is_setup n (evs nt s a) = false.
+Proof. intros. destruct a; evs_cases s; split; reflexivity. Qed.
+
+Lemma evs_start_mono : forall nt s a p, any_start p = true -> any_start (evs nt s a ++ p) = true.
+Proof. intros. unfold any_start in *. rewrite has_app, H. apply orb_true_r. Qed.
+
+(* ---- init ---- *)
+Lemma filter_rev_length : forall A (f : A -> bool) l, length (filter f (rev l)) = length (filter f l).
+Proof.
+  induction l as [|a l IH]; cbn; auto. rewrite filter_app, app_length, IH. cbn.
+  destruct (f a); cbn; lia.
+Qed.
+
+Lemma cnt_setup_seq : forall n len a,
+  length (filter (setup_ev n) (map TSetup (seq a len))) = if (a <=? n) && (n <? a + len) then 1 else 0.
+Proof.
+  induction len as [|len IH]; intros a; cbn [seq map filter].
+  - cbn [length]. destruct (Nat.leb_spec a n), (Nat.ltb_spec n (a + 0)); cbn; auto; lia.
+  - change (setup_ev n (TSetup a)) with (a =? n).
+    destruct (Nat.eqb_spec a n) as [->|Hne]; cbn [length]; rewrite IH;
+      repeat match goal with
+      | |- context [?x <=? ?y] => destruct (Nat.leb_spec x y)
+      | |- context [?x <? ?y] => destruct (Nat.ltb_spec x y)
+      end; cbn; lia.
+Qed.
+
+Lemma is_setup_init_trace : forall nt n,
+  is_setup n (tr (init nt)) = (n <? length nt) /\ cnt_setup n (tr (init nt)) = if n <? length nt then 1 else 0.
+Proof.
+  intros nt n. unfold init; cbn [tr].
+  assert (Hc : cnt_setup n (TStart 0 :: rev (map TSetup (seq 0 (length nt))) ++ [TPrep 0])
+               = if n <? length nt then 1 else 0).
+  { unfold cnt_setup. cbn [filter setup_ev]. rewrite filter_app, app_length. cbn [filter setup_ev length].
+    rewrite filter_rev_length, cnt_setup_seq. cbn. rewrite Nat.add_0_r. destruct (n <? length nt); reflexivity. }
+  split; auto.
+  unfold is_setup, has. change (fun e : tev => match e with TSetup m => m =? n | _ => false end) with (setup_ev n).
+  unfold cnt_setup in Hc.
+  match goal with |- existsb _ ?l = _ => set (p := l) in * end.
+  destruct (existsb (setup_ev n) p) eqn:E.
+  - apply existsb_exists in E. destruct E as [e [Hin He]].
+    assert (In e (filter (setup_ev n) p)) by (apply filter_In; auto).
+    destruct (n <? length nt); auto. destruct (filter (setup_ev n) p); [contradiction|discriminate].
+  - destruct (n <? length nt); auto.
+    destruct (filter (setup_ev n) p) as [|e l] eqn:Ef; [discriminate|].
+    assert (Hin : In e (filter (setup_ev n) p)) by (rewrite Ef; left; auto).
+    apply filter_In in Hin. destruct Hin as [Hin He].
+    assert (existsb (setup_ev n) p = true) by (apply existsb_exists; eauto). congruence.
+Qed.
+
+Lemma link_core_init : forall nt, link_core nt (init nt).
+Proof.
+  intros nt. constructor.
+  - intros n Hn. destruct (is_setup_init_trace nt n) as [A B].
+    rewrite A, B. replace (n <? length nt) with true by (symmetry; apply Nat.ltb_lt; auto). auto.
+  - intros m Hm. destruct (is_setup_init_trace nt m) as [A _]. rewrite A. apply Nat.ltb_ge; auto.
+  - reflexivity.
+  - intros n. rewrite node_init. cbn [once init_node negb]. unfold init; cbn [tr]. unfold shutb, has.
+    cbn [existsb]. rewrite existsb_app. cbn. rewrite orb_false_r.
+    destruct (existsb _ (rev _)) eqn:E; auto. apply existsb_exists in E. destruct E as [e [Hin He]].
+    apply in_rev, in_map_iff in Hin. destruct Hin as [x [<- _]]. discriminate.
+  - intros n. rewrite node_init. cbn [once init_node]. unfold init; cbn [tr]. unfold shute, has.
+    cbn [existsb]. rewrite existsb_app. cbn. rewrite orb_false_r.
+    destruct (existsb _ (rev _)) eqn:E; auto. apply existsb_exists in E. destruct E as [e [Hin He]].
+    apply in_rev, in_map_iff in Hin. destruct Hin as [x [<- _]]. discriminate.
+  - unfold init; cbn [tr mn]. unfold is_done, has. cbn [existsb]. rewrite existsb_app. cbn. rewrite orb_false_r.
+    destruct (existsb _ (rev _)) eqn:E; auto. apply existsb_exists in E. destruct E as [e [Hin He]].
+    apply in_rev, in_map_iff in Hin. destruct Hin as [x [<- _]]. discriminate.
+  - intros c. rewrite node_init. cbn. discriminate.
+  - exact Logic.I.
+Qed.
+
+(* ---- step ---- *)
+Lemma guard_once_running : forall nt s n w st, inv_shape nt s -> inv_life' nt s ->
+  nth_error (ws (node s n)) w = Some st -> is_running_once st = true -> once (node s n) = ORunning.
+Proof.
+  intros nt s n w st [Hlen _] I Hg Hr.
+  pose proof (node_ws_some_lt _ _ _ _ Hg) as Hn. assert (Hn' : n < length nt) by lia.
+  eapply running_once_O; eauto. apply (i_nodes _ _ I n Hn').
+Qed.
+
+Lemma link_core_step : forall nt T s a s', wf_net nt = true -> inv_shape nt s -> inv_life' nt s ->
+  link_core nt s -> step nt T s a = Ok s' -> link_core nt s'.
+Proof.
+  intros nt T s a s' Hwf Hs I K H.
+  pose proof (step_fp _ _ _ _ _ H) as F. destruct F as [G Ftr Fmn Fsrc Fonce Fclosing Fclosed].
+  destruct K as [K1 K2 K3 K4 K5 K6 K7 K8].
+  constructor; rewrite ?Ftr, ?Fmn, ?Fsrc.
+  - intros n Hn. destruct (evs_no_setup nt s a n) as [A B]. destruct (K1 n Hn) as [C D].
+    unfold is_setup, cnt_setup in *. rewrite has_app, B, C, filter_app, A. auto.
+  - intros m Hm. destruct (evs_no_setup nt s a m) as [A B].
+    unfold is_setup in *. rewrite has_app, B, (K2 m Hm). reflexivity.
+  - apply evs_start_mono; auto.
+  - (* shutb *)
+    intros n. rewrite Fonce. unfold shutb in *. rewrite has_app, K4. clear K4 K5.
+    destruct a; evs_cases s; cbn [has existsb orb once_after]; try reflexivity.
+    + destruct (Nat.eqb_spec n n0) as [->|Hne].
+      * rewrite Nat.eqb_refl. reflexivity.
+      * replace (n0 =? n) with false by (symmetry; apply Nat.eqb_neq; congruence). reflexivity.
+    + destruct (Nat.eqb_spec n n0) as [->|Hne]; auto.
+      cbn [guard] in G. rewrite (guard_once_running _ _ _ _ _ Hs I G eq_refl). reflexivity.
+  - (* shute *)
+    intros n. rewrite Fonce, Fclosing. unfold shute in *. rewrite has_app, K5. clear K4 K5.
+    destruct a; evs_cases s; cbn [has existsb orb once_after closing_after]; try reflexivity.
+    + (* OnceEnter: no worker of n is closing yet *)
+      destruct (Nat.eqb_spec n n0) as [->|Hne]; auto.
+      cbn [guard] in G. destruct G as [Hg Ho]. rewrite Ho.
+      destruct (existsb isclosing (ws (node s n0))) eqn:E; auto.
+      apply existsb_to_nth_error in E. destruct E as (i & st & Hi & Hc). destruct st; try discriminate.
+      rewrite (guard_once_running _ _ _ _ _ Hs I Hi eq_refl) in Ho. discriminate.
+    + (* ShutdownReturn *)
+      cbn [guard] in G. pose proof (guard_once_running _ _ _ _ _ Hs I G eq_refl) as Ho.
+      destruct (Nat.eqb_spec n n0) as [->|Hne].
+      * rewrite Nat.eqb_refl, Ho. reflexivity.
+      * replace (n0 =? n) with false by (symmetry; apply Nat.eqb_neq; congruence). reflexivity.
+    + (* CloseKids *)
+      cbn [guard] in G. pose proof (guard_once_running _ _ _ _ _ Hs I G eq_refl) as Ho.
+      destruct (Nat.eqb_spec n n0) as [->|Hne]; auto.
+      rewrite Ho. eapply existsb_nth_error; eauto.
+  - (* is_done *)
+    unfold is_done in *. rewrite has_app, K6. clear K4 K5.
+    destruct a; cbn [guard] in G; evs_cases s; cbn [has existsb orb mn_after]; try reflexivity.
+    + destruct G as [_ ->]. destruct (roots nt); reflexivity.
+    + destruct G as (it & r & rs & ->). destruct rs; reflexivity.
+    + destruct G as [-> _]. reflexivity.
+    + rewrite G. reflexivity.
+  - (* fed *)
+    intros c Hc. apply Fclosed in Hc. destruct Hc as [Hc|Hc]; auto.
+    destruct a; cbn [closes] in Hc; try contradiction; auto.
+    right. exists n. split; auto. cbn [guard] in G. destruct Hs as [Hlen _].
+    pose proof (node_ws_some_lt _ _ _ _ G). lia.
+  - (* main past its loop => source closed *)
+    destruct a; cbn [guard] in G; cbn [mn_after src_after]; auto.
+    + destruct (roots nt); exact Logic.I.
+    + destruct (mn s); auto.
+    + destruct G as [k Hk]. rewrite Hk in *. destruct (mn s); auto; discriminate.
+    + destruct G as [k Hk]. rewrite Hk in *. destruct (mn s); auto; discriminate.
+    + destruct G as (it & r & rs & Hm). rewrite Hm. destruct rs; exact Logic.I.
+    + tauto.
+    + rewrite G in K8. exact K8.
+    + destruct G as [Hm _]. rewrite Hm in K8. exact K8.
+    + rewrite G in K8. exact K8.
+Qed.
